@@ -314,6 +314,11 @@ def gen_specs(tier, seed):
         specs.append(Spec('struct', False, [dict(kind='tuple', vname=None, nf=None, fields=['b', 'r', 'p'])], True))
         specs.append(Spec('struct', False, [dict(kind='named', vname=None, nf=None, fields=['b', 'm', 'l'])]))
         specs.append(Spec('struct', 'Rn', [dict(kind='tuple', vname=None, nf=None, fields=['r', 'b', 'i'])], True))
+        # positional keys `_i` (tuple shown as named) after an ignored field: the key is the declaration position, not the count of shown fields
+        specs.append(Spec('enum', None, [dict(kind='tuple', vname=None, nf=True, fields=['i', 'p']), dict(kind='tuple', vname=False, nf=True, fields=['i', 'm'])]))
+        specs.append(Spec('enum', True, [dict(kind='tuple', vname='Rv', nf=True, fields=['i', 'l']), dict(U)]))
+        specs.append(Spec('struct', None, [dict(kind='tuple', vname=None, nf=None, fields=['i', 'p', 'm'])], True))
+        specs.append(Spec('struct', False, [dict(kind='tuple', vname=None, nf=None, fields=['p', 'i', 'p'])], True))
         # degenerate shapes: zero-field structs and variants (a name must be shown), flipped named_field on them
         specs.append(Spec('struct', None, [dict(kind='tuple', vname=None, nf=None, fields=[])]))
         specs.append(Spec('struct', 'Rn', [dict(kind='named', vname=None, nf=None, fields=[])], False))
